@@ -13,7 +13,7 @@ import (
 	"strings"
 	"testing"
 
-	sim "golang.org/x/perf/internal/verifsim"
+	sim "verif.local/sim"
 )
 
 // ---- reference model of a record stream ----
